@@ -48,6 +48,10 @@ def exhaustive(ctx, mode):
         ctx.add_tlc(r, label)
         if not r.ok:
             raise vlib.Inconclusive("model finding in TunnelTime.tla (%s): %s" % (label, r.violated))
+    # anti-vacuity: the antecedents of the property layer are reachable (TLC must violate the negated witness)
+    w = vlib.tlc(ctx, "TunnelTime", "MC_TunnelTimeWitness.cfg", workers=2, timeout=600, deadlock=False, want_trace=False)
+    if w.violated != "Witness":
+        raise vlib.Inconclusive("vacuity: no reachable scrape showing time with two overlapping tunnels (%s)" % w.violated)
     crash_beh = None
     if mode == "asis":
         r = T.shortest_crash(ctx)
@@ -111,7 +115,7 @@ def selftest(ctx, traces, mode):
                 bad = copy.deepcopy(t)
                 k = sorted(bad[i]["keyv"])[0]
                 bad[i]["keyv"][k] += 1
-                res = T.validate(ctx, [bad], mode, "selftest", report=False)
+                res = T.validate(ctx, [bad], mode, "selftest", report=False, quiet=True)
                 if not res["violations"]:
                     raise vlib.Inconclusive("trace validator self-test: a corrupted scrape value was accepted")
                 less = copy.deepcopy(t)
@@ -120,7 +124,7 @@ def selftest(ctx, traces, mode):
                     if e["v"] >= 1:
                         e["v"] -= 1
                         break
-                res = T.validate(ctx, [less], mode, "selftest", report=False)
+                res = T.validate(ctx, [less], mode, "selftest", report=False, quiet=True)
                 if not res["violations"]:
                     raise vlib.Inconclusive("trace validator self-test: a lost second was accepted")
                 return
